@@ -56,7 +56,7 @@ def cases(tier, seed):
             for delta in ("none", "one", "all"):
                 yield {"k": "reconnect", "gen": gen, "how": "hb", "tau": 0.0, "outage": outage,
                        "delta": delta, "seed": rnd.randrange(1 << 30)}
-    n = 40 if tier == "quick" else 2500
+    n = 40 if tier == "quick" else 15000
     for i in range(n):
         gaps = [rnd.choice([299.0, 300.5, 301.0, 900.25, 3000.25, 150.0, 10.0])
                 for _ in range(rnd.randint(0, 5))]
